@@ -10,6 +10,7 @@ Record bfail := { bf_elem : rel; bf_sym : sym; bf_parents : list (rel * rel * sy
 
 Section S.
 Variable fp ft : list N.       (* ids of byte-independent primitives / tests *)
+Variable ss : list sym.        (* the symbols the parsers are ever given *)
 Variable m1 m2 : nfm.
 
 Definition step_succs (x : rel) (s : sym) : option (list rel) :=
@@ -43,7 +44,7 @@ Definition sstep (st : sstate) : sstate + ((list rel) + bfail) :=
   | x :: rest =>
     if memr x (s_R st) then inl {| s_todo := rest; s_R := s_R st; s_par := s_par st |}
     else if negb (items_free (in_ids fp) (in_ids ft) (r_pend x)) then inr (inr {| bf_elem := x; bf_sym := 998%N; bf_parents := s_par st |})
-    else match elem_succs x all_syms [] with
+    else match elem_succs x ss [] with
          | inr s => inr (inr {| bf_elem := x; bf_sym := s; bf_parents := s_par st |})
          | inl l =>
              let new := filter (fun y => negb (memr (fst y) (x :: s_R st))) l in
@@ -63,22 +64,57 @@ End S.
 
 Definition start_rel (d1 d2 : dfa) : rel := {| r_mode := EBoth; r_q1 := d_start d1; r_q2 := d_start d2; r_pend := [] |}.
 
-Definition dfa_ssearch (fp ft : list N) (d1 d2 : dfa) : (list rel) + bfail :=
-  match sloop fp ft (step_tree d1) (step_tree d2) (Pos.shiftl 1 40)
+Definition dfa_ssearch_on (fp ft : list N) (ss : list sym) (d1 d2 : dfa) : (list rel) + bfail :=
+  match sloop fp ft ss (step_tree d1) (step_tree d2) (Pos.shiftl 1 40)
               {| s_todo := [start_rel d1 d2]; s_R := []; s_par := [] |} with
   | inr r => r
   | inl st => inr {| bf_elem := start_rel d1 d2; bf_sym := 999%N; bf_parents := s_par st |}
   end.
 
-(** the certificate: d1 is the eager (short-circuited) machine, d2 the lazy one *)
-Definition dfa_slack_check (fp ft : list N) (d1 d2 : dfa) (R : list rel) : bool :=
-  memr (start_rel d1 d2) R && closed (in_ids fp) (in_ids ft) (step_tree d1) (step_tree d2) R.
+(** the certificate: d1 is the eager (short-circuited) machine, d2 the lazy one; [eof]: the parsers have an end()
+    function, so the end-of-input symbol is one of the symbols they are given *)
+Definition dfa_slack_check_on (fp ft : list N) (ss : list sym) (d1 d2 : dfa) (R : list rel) : bool :=
+  memr (start_rel d1 d2) R && closed (in_ids fp) (in_ids ft) ss (step_tree d1) (step_tree d2) R.
 
-Definition dfa_slack_cert (fp ft : list N) (d1 d2 : dfa) : bool :=
-  match dfa_ssearch fp ft d1 d2 with inl R => dfa_slack_check fp ft d1 d2 R | inr _ => false end.
+Definition dfa_slack_cert_on (fp ft : list N) (eof : bool) (d1 d2 : dfa) : bool :=
+  match dfa_ssearch_on fp ft (syms_for eof) d1 d2 with inl R => dfa_slack_check_on fp ft (syms_for eof) d1 d2 R | inr _ => false end.
 
-Definition dfa_slack_run (fp ft : list N) (d1 d2 : dfa) : bool + bfail :=
-  match dfa_ssearch fp ft d1 d2 with inl R => inl (dfa_slack_check fp ft d1 d2 R) | inr f => inr f end.
+Definition dfa_slack_run_on (fp ft : list N) (eof : bool) (d1 d2 : dfa) : bool + bfail :=
+  match dfa_ssearch_on fp ft (syms_for eof) d1 d2 with inl R => inl (dfa_slack_check_on fp ft (syms_for eof) d1 d2 R) | inr f => inr f end.
+
+Definition dfa_slack_cert (fp ft : list N) (d1 d2 : dfa) : bool := dfa_slack_cert_on fp ft true d1 d2.
+Definition dfa_slack_run (fp ft : list N) (d1 d2 : dfa) : bool + bfail := dfa_slack_run_on fp ft true d1 d2.
+
+(** soundness, instantiated: for every data semantics in which the flagged primitives and tests do not
+    look at the current byte, on every input over the symbols the parsers are given, the un-timed traces agree up to
+    a tail the eager machine is still ahead by (empty whenever both have caught up) *)
+Lemma slack_check_generic fp ft ss d1 d2 (X : (list rel) + bfail) :
+  (match X with inl R => dfa_slack_check_on fp ft ss d1 d2 R | inr _ => false end) = true ->
+  forall D exec evalt,
+  (forall p s s' x, in_ids fp p = true -> exec p s x = exec p s' x) ->
+  (forall t s s' x, in_ids ft t = true -> evalt t s x = evalt t s' x) ->
+  forall K1 K2 input, (forall s, In s input -> In s ss) -> forall x tr1 tr2,
+  run D exec evalt (step_tree d1) K1 input (d_start d1) x = Some tr1 ->
+  run D exec evalt (step_tree d2) K2 input (d_start d2) x = Some tr2 ->
+  exists tail, tr1 = tr2 ++ tail.
+Proof.
+  destruct X as [R|f]; [|discriminate].
+  unfold dfa_slack_check_on. intros H. apply andb_prop in H as [Hs Hc]. apply memr_in in Hs.
+  intros D exec evalt Hp Ht K1 K2 input Hi x tr1 tr2 H1 H2.
+  pose proof (bbisim_sound (in_ids fp) (in_ids ft) D exec evalt Hp Ht ss (step_tree d1) (step_tree d2) R Hc K1 K2 input Hi
+                (start_rel d1 d2) Hs x x 0%N eq_refl tr1 tr2 H1 H2) as [tail Ht'].
+  exists tail. exact Ht'.
+Qed.
+
+Theorem dfa_slack_cert_on_sound fp ft eof d1 d2 : dfa_slack_cert_on fp ft eof d1 d2 = true ->
+  forall D exec evalt,
+  (forall p s s' x, in_ids fp p = true -> exec p s x = exec p s' x) ->
+  (forall t s s' x, in_ids ft t = true -> evalt t s x = evalt t s' x) ->
+  forall K1 K2 input, (forall s, In s input -> In s (syms_for eof)) -> forall x tr1 tr2,
+  run D exec evalt (step_tree d1) K1 input (d_start d1) x = Some tr1 ->
+  run D exec evalt (step_tree d2) K2 input (d_start d2) x = Some tr2 ->
+  exists tail, tr1 = tr2 ++ tail.
+Proof. exact (slack_check_generic fp ft (syms_for eof) d1 d2 (dfa_ssearch_on fp ft (syms_for eof) d1 d2)). Qed.
 
 (** soundness, instantiated: for every data semantics in which the flagged primitives and tests do not
     look at the current byte, on every input, the un-timed traces agree up to a tail the eager machine is
@@ -92,11 +128,8 @@ Theorem dfa_slack_cert_sound fp ft d1 d2 : dfa_slack_cert fp ft d1 d2 = true ->
   run D exec evalt (step_tree d2) K2 input (d_start d2) x = Some tr2 ->
   exists tail, tr1 = tr2 ++ tail.
 Proof.
-  unfold dfa_slack_cert. destruct (dfa_ssearch fp ft d1 d2) as [R|f]; [|discriminate].
-  unfold dfa_slack_check. intros H. apply andb_prop in H as [Hs Hc]. apply memr_in in Hs.
-  intros D exec evalt Hp Ht K1 K2 input Hi x tr1 tr2 H1 H2.
-  pose proof (bbisim_sound (in_ids fp) (in_ids ft) D exec evalt Hp Ht (step_tree d1) (step_tree d2) R Hc K1 K2 input Hi
-                (start_rel d1 d2) Hs x x 0%N eq_refl tr1 tr2 H1 H2) as [tail Ht'].
-  exists tail. exact Ht'.
+  unfold dfa_slack_cert. intros H D exec evalt Hp Ht K1 K2 input Hi.
+  assert (Hi' : forall s, In s input -> In s (syms_for true)) by (intros s Hin; apply in_all_syms; apply Hi; exact Hin).
+  exact (dfa_slack_cert_on_sound fp ft true d1 d2 H D exec evalt Hp Ht K1 K2 input Hi').
 Qed.
 Print Assumptions dfa_slack_cert_sound.
